@@ -52,8 +52,8 @@ def total (s : PackState) (pol : Bytes) (p n : Bytes) : Int :=
 
 def StateWF (s : PackState) : Prop := MultiAsset.WF s.out.ma ∧ Dict.WF s.temp
 
-theorem packAsset_wf (P : Params) (addr pol : Bytes) (s : PackState) (a : Bytes × Int) (h : StateWF s) :
-    StateWF (packAsset P addr pol s a) := by
+theorem packAsset_wf (P : Params) (addr : Bytes) (c0 : Int) (pol : Bytes) (s : PackState) (a : Bytes × Int) (h : StateWF s) :
+    StateWF (packAsset P addr c0 pol s a) := by
   unfold packAsset
   by_cases ho : overflow P addr s.out s.temp pol a.1 a.2 = true
   · simp only [ho, if_true]
@@ -62,8 +62,8 @@ theorem packAsset_wf (P : Params) (addr pol : Bytes) (s : PackState) (a : Bytes 
     simp only [ho', Bool.false_eq_true, if_false]
     exact ⟨h.1, Asset.wf_add _ _ h.2⟩
 
-theorem packAsset_total (P : Params) (addr pol : Bytes) (s : PackState) (a : Bytes × Int) (h : StateWF s) (p n : Bytes) :
-    total (packAsset P addr pol s a) pol p n = total s pol p n + (if pol = p ∧ a.1 = n then a.2 else 0) := by
+theorem packAsset_total (P : Params) (addr : Bytes) (c0 : Int) (pol : Bytes) (s : PackState) (a : Bytes × Int) (h : StateWF s) (p n : Bytes) :
+    total (packAsset P addr c0 pol s a) pol p n = total s pol p n + (if pol = p ∧ a.1 = n then a.2 else 0) := by
   obtain ⟨an, aq⟩ := a
   unfold packAsset total
   by_cases ho : overflow P addr s.out s.temp pol an aq = true
@@ -87,17 +87,17 @@ theorem packAsset_total (P : Params) (addr pol : Bytes) (s : PackState) (a : Byt
     rw [Asset.qty_add _ _ _ h.2 (asset_wf_single an aq), asset_qty_single]
     by_cases hp : pol = p <;> by_cases hn : an = n <;> simp [hp, hn] <;> omega
 
-theorem foldl_packAsset (P : Params) (addr pol : Bytes) (assets : Asset) (s : PackState) (h : StateWF s) (p n : Bytes) :
-    StateWF (assets.foldl (packAsset P addr pol) s) ∧
-    total (assets.foldl (packAsset P addr pol) s) pol p n
+theorem foldl_packAsset (P : Params) (addr : Bytes) (c0 : Int) (pol : Bytes) (assets : Asset) (s : PackState) (h : StateWF s) (p n : Bytes) :
+    StateWF (assets.foldl (packAsset P addr c0 pol) s) ∧
+    total (assets.foldl (packAsset P addr c0 pol) s) pol p n
       = total s pol p n + (assets.map (fun a => if pol = p ∧ a.1 = n then a.2 else 0)).sum := by
   induction assets generalizing s with
   | nil => simp [h]
   | cons a r ih =>
     simp only [List.foldl_cons, List.map_cons, List.sum_cons]
-    have := ih (packAsset P addr pol s a) (packAsset_wf P addr pol s a h)
+    have := ih (packAsset P addr c0 pol s a) (packAsset_wf P addr c0 pol s a h)
     refine ⟨this.1, ?_⟩
-    rw [this.2, packAsset_total P addr pol s a h]
+    rw [this.2, packAsset_total P addr c0 pol s a h]
     omega
 
 /-- for a dict with unique names, summing the matching entries is the lookup -/
@@ -127,11 +127,11 @@ theorem sum_match_pol (assets : Asset) (hw : Dict.WF assets) (pol p n : Bytes) :
     | cons a r ih => simp [ih]
 
 /-- the packing loop loses and duplicates nothing as long as the `break` is not taken -/
-theorem packPolicies_total (P : Params) (addr : Bytes) (pols : List (Bytes × Asset)) (s : PackState)
+theorem packPolicies_total (P : Params) (addr : Bytes) (c0 : Int) (pols : List (Bytes × Asset)) (s : PackState)
     (hs : MultiAsset.WF s.out.ma) (hp : MultiAsset.WF pols)
-    (hnb : (packPolicies P addr pols s).2 = false) (p n : Bytes) :
-    MultiAsset.WF (packPolicies P addr pols s).1.out.ma ∧
-    sumQty (packPolicies P addr pols s).1.arr p n + MultiAsset.qty (packPolicies P addr pols s).1.out.ma p n
+    (hnb : (packPolicies P addr c0 pols s).2 = false) (p n : Bytes) :
+    MultiAsset.WF (packPolicies P addr c0 pols s).1.out.ma ∧
+    sumQty (packPolicies P addr c0 pols s).1.arr p n + MultiAsset.qty (packPolicies P addr c0 pols s).1.out.ma p n
       = sumQty s.arr p n + MultiAsset.qty s.out.ma p n + MultiAsset.qty pols p n := by
   induction pols generalizing s with
   | nil => simp [packPolicies, hs, qty_nil]
@@ -143,8 +143,8 @@ theorem packPolicies_total (P : Params) (addr : Bytes) (pols : List (Bytes × As
     -- state after the inner loop
     let s0 : PackState := { s with temp := [], old := s.out }
     have hs0 : StateWF s0 := ⟨hs, Dict.wf_nil⟩
-    have hf := foldl_packAsset P addr pol assets s0 hs0 p n
-    let s1 := assets.foldl (packAsset P addr pol) s0
+    have hf := foldl_packAsset P addr c0 pol assets s0 hs0 p n
+    let s1 := assets.foldl (packAsset P addr c0 pol) s0
     have hs1 : StateWF s1 := hf.1
     have ht1 : total s1 pol p n = total s0 pol p n + (if pol = p then Asset.qty assets n else 0) := by
       rw [hf.2, sum_match_pol assets hass]
@@ -182,7 +182,7 @@ theorem packTokens_preserves (P : Params) (addr : Bytes) (ch : Value) (hw : Mult
     sumQty (packTokens P addr ch).1 p n = MultiAsset.qty ch.ma p n := by
   unfold packTokens at hnb ⊢
   simp only at hnb ⊢
-  have := packPolicies_total P addr ch.ma { arr := [], out := ⟨ch.coin, []⟩, temp := [], old := ⟨ch.coin, []⟩ }
+  have := packPolicies_total P addr ch.coin ch.ma { arr := [], out := ⟨ch.coin, []⟩, temp := [], old := ⟨ch.coin, []⟩ }
     MultiAsset.wf_nil hw hnb p n
   rw [sumQty_append]
   simp only [sumQty, List.map_cons, List.map_nil, List.sum_cons, List.sum_nil, Int.add_zero] at this ⊢
@@ -445,8 +445,8 @@ open Pyc Pyc.Dict
 
 def ArrWF (s : PackState) : Prop := ∀ m ∈ s.arr, MultiAsset.WF m
 
-theorem packAsset_arrwf (P : Params) (addr pol : Bytes) (s : PackState) (a : Bytes × Int) (h : StateWF s) (ha : ArrWF s) :
-    ArrWF (packAsset P addr pol s a) := by
+theorem packAsset_arrwf (P : Params) (addr : Bytes) (c0 : Int) (pol : Bytes) (s : PackState) (a : Bytes × Int) (h : StateWF s) (ha : ArrWF s) :
+    ArrWF (packAsset P addr c0 pol s a) := by
   unfold packAsset ArrWF
   by_cases ho : overflow P addr s.out s.temp pol a.1 a.2 = true
   · simp only [ho, if_true]
@@ -462,28 +462,28 @@ theorem packAsset_arrwf (P : Params) (addr pol : Bytes) (s : PackState) (a : Byt
     simp only [ho', Bool.false_eq_true, if_false]
     exact ha
 
-theorem foldl_packAsset_arrwf (P : Params) (addr pol : Bytes) (assets : Asset) (s : PackState) (h : StateWF s) (ha : ArrWF s) :
-    ArrWF (assets.foldl (packAsset P addr pol) s) := by
+theorem foldl_packAsset_arrwf (P : Params) (addr : Bytes) (c0 : Int) (pol : Bytes) (assets : Asset) (s : PackState) (h : StateWF s) (ha : ArrWF s) :
+    ArrWF (assets.foldl (packAsset P addr c0 pol) s) := by
   induction assets generalizing s with
   | nil => simpa
   | cons a r ih =>
     simp only [List.foldl_cons]
-    exact ih _ (packAsset_wf P addr pol s a h) (packAsset_arrwf P addr pol s a h ha)
+    exact ih _ (packAsset_wf P addr c0 pol s a h) (packAsset_arrwf P addr c0 pol s a h ha)
 
-theorem packPolicies_wf (P : Params) (addr : Bytes) (pols : List (Bytes × Asset)) (s : PackState)
+theorem packPolicies_wf (P : Params) (addr : Bytes) (c0 : Int) (pols : List (Bytes × Asset)) (s : PackState)
     (hs : MultiAsset.WF s.out.ma) (ho : MultiAsset.WF s.old.ma) (ha : ArrWF s) :
-    ArrWF (packPolicies P addr pols s).1 ∧ MultiAsset.WF (packPolicies P addr pols s).1.out.ma := by
+    ArrWF (packPolicies P addr c0 pols s).1 ∧ MultiAsset.WF (packPolicies P addr c0 pols s).1.out.ma := by
   induction pols generalizing s with
   | nil => exact ⟨ha, hs⟩
   | cons pa rest ih =>
     obtain ⟨pol, assets⟩ := pa
     let s0 : PackState := { s with temp := [], old := s.out }
     have hs0 : StateWF s0 := ⟨hs, Dict.wf_nil⟩
-    have h1 := (foldl_packAsset P addr pol assets s0 hs0 [] []).1
-    have a1 := foldl_packAsset_arrwf P addr pol assets s0 hs0 ha
+    have h1 := (foldl_packAsset P addr c0 pol assets s0 hs0 [] []).1
+    have a1 := foldl_packAsset_arrwf P addr c0 pol assets s0 hs0 ha
     -- `old` stays well-formed: it is s.out or the empty value
     have hold : ∀ (as : Asset) (t : PackState), MultiAsset.WF t.old.ma →
-        MultiAsset.WF (as.foldl (packAsset P addr pol) t).old.ma := by
+        MultiAsset.WF (as.foldl (packAsset P addr c0 pol) t).old.ma := by
       intro as
       induction as with
       | nil => intro t ht; simpa
@@ -502,7 +502,7 @@ theorem packPolicies_wf (P : Params) (addr : Bytes) (pols : List (Bytes × Asset
 
 theorem packTokens_wf (P : Params) (addr : Bytes) (ch : Value) :
     ∀ m ∈ (packTokens P addr ch).1, MultiAsset.WF m := by
-  have := packPolicies_wf P addr ch.ma { arr := [], out := ⟨ch.coin, []⟩, temp := [], old := ⟨ch.coin, []⟩ }
+  have := packPolicies_wf P addr ch.coin ch.ma { arr := [], out := ⟨ch.coin, []⟩, temp := [], old := ⟨ch.coin, []⟩ }
     MultiAsset.wf_nil MultiAsset.wf_nil (by intro m hm; simp at hm)
   intro m hm
   simp only [packTokens, List.mem_append, List.mem_singleton] at hm
